@@ -229,6 +229,7 @@ def run(ctx):
     from .C10 import rule_save_bookkeeping
     r8 = ctx.rule('C09.R8', 'power cycle preserves what a warm restart keeps: a retain save is recorded as done only after the store succeeded', floor=1)
     rule_save_bookkeeping(ctx, r8)
+    rule_r9_r10(ctx)
 
     # ------------------------------------------------------------------ R6
     r6 = ctx.rule('C09.R6', 'restart and register_task seed task state from the same sources', floor=1)
@@ -300,3 +301,56 @@ def rule_r7(ctx):
         r7.ok('phase-order|retained-after-instances', loc=fn.loc(siv[0]))
     else:
         r7.bad('phase-order|retained-after-instances', 'retained program variables are written back before the new program instances exist (the values are lost)', loc=fn.loc(early[0]) if early else fn.loc(0))
+
+
+def rule_r9_r10(ctx):
+    fx = ctx.fx
+    # ------------------------------------------------------------------ R9
+    r9 = ctx.rule('C09.R9', 'a clean stop flushes the retained values unconditionally (not only when the periodic save interval has elapsed)', floor=2, floor_what='resource loops')
+    SAVE = re.compile(r'retain::RetainManager::save_snapshot$')
+
+    def unconditional_saver(fid, depth=0):
+        """every path of fid reaches RetainManager::save_snapshot (directly or through a local callee that does)"""
+        rec = fx.fns.get(fid)
+        if rec is None or depth > 3:
+            return False
+        f2 = F(rec)
+        tg = set(f2.blocks_calling(lambda n: SAVE.search(n) is not None))
+        for b, nm, t in f2.calls(lambda n: n in fx.fns and n != fid):
+            if b not in tg and 'retain' in nm and unconditional_saver(nm, depth + 1):
+                tg.add(b)
+        if not tg:
+            return False
+        ok, _ = f2.must_pass_from([0], tg)
+        return ok
+    for lid in sorted(k for k in fx.fns if re.search(r'trust_runtime::scheduler::run_resource_loop(_with_shared)?$', k)):
+        fn = F(fx.fns[lid])
+        r9.saw()
+        short = lid.split('::')[-1]
+        flush = [b for b, nm, t in fn.calls(lambda n: n in fx.fns) if unconditional_saver(nm) and not fn.in_cycle(b)]
+        if flush:
+            r9.ok('stop-flush|%s' % short, loc=fn.loc(flush[0]))
+        else:
+            r9.bad('stop-flush|%s' % short, '%s has no unconditional retain save outside the cycle loop: a clean stop between two periodic saves drops every RETAIN change since the last save (a power cycle then loses what a warm restart keeps)' % short, loc=fn.loc(0))
+
+    # ------------------------------------------------------------------ R10
+    r10 = ctx.rule('C09.R10', 'every configuration global gets its restart/retain metadata: no iteration of the registration loop skips register_global_meta', floor=1)
+    ag = fx.fns.get('trust_runtime::harness::config::apply_globals')
+    if ag is None:
+        r10.bad('anchor-missing|apply_globals', 'apply_globals not found')
+        return
+    fn = F(ag)
+    regs = set(fn.blocks_calling(lambda n: n.endswith('register_global_meta')))
+    r10.saw(len(fn.g))
+    loops = [set(c) for c in fn.sccs() if len(c) > 1 and regs & set(c)]
+    if not regs or not loops:
+        r10.bad('registration-loop', 'apply_globals no longer registers global metadata in a loop over the globals (shape not recognised)', loc=fn.loc(0))
+        return
+    comp = max(loops, key=len)
+    hs = {b for b in comp if re.search(r'::next$', fn.call_name(b) or '')}
+    heads = {h for h in hs if all(fn.dominates(h, o) for o in hs)}
+    skipping = [c for c in fn.sccs(removed_nodes=regs) if len(c) > 1 and set(c) & heads]
+    if heads and not skipping:
+        r10.ok('registration-loop', loc=fn.loc(min(regs)), detail='%d registration sites, every iteration passes one' % len(regs))
+    else:
+        r10.bad('registration-loop', 'an iteration of the global registration loop can finish without register_global_meta: such a global has storage (and possibly an I/O binding) but restart never re-initialises it and the retain snapshot ignores it', loc=fn.loc(min(heads)) if heads else fn.loc(0))
